@@ -642,6 +642,9 @@ DECLARED_OWNED = {
 }
 
 
+INPLACE_FLAGS = {"overwrite_input", "overwrite_a", "overwrite_b", "overwrite_x", "overwrite_ab", "overwrite_v", "overwrite_data"}
+
+
 def kernel_functions(repo):
     out = []
     for rel, names in KERNEL_FILES.items():
@@ -706,6 +709,29 @@ def kernels(repo):
                         failures.append({"site": f"{rel}:{n.lineno} in {caller.name}",
                                          "what": f"call of {fname} passes `{ast.unparse(n.args[0])[:40]}` which is not provably fresh, "
                                                  f"but {fname} writes into that parameter in place"})
+    # third-party callables used as tasks (np.median, np.partition, scipy.linalg.*, ...) mutate their *input* when asked to
+    # with an in-place flag: anywhere in the library, such a flag may only be passed as the constant False
+    for rel in all_modules(repo):
+        if "/tests/" in rel:
+            continue
+        tree, _ = parse(repo, rel)
+        for n in ast.walk(tree):
+            found = []
+            if isinstance(n, ast.Call):
+                found += [(k.arg, k.value, n.lineno) for k in n.keywords if k.arg in INPLACE_FLAGS]
+            elif isinstance(n, ast.Assign):
+                for t in n.targets:
+                    if isinstance(t, ast.Subscript) and isinstance(t.slice, ast.Constant) and t.slice.value in INPLACE_FLAGS:
+                        found.append((t.slice.value, n.value, n.lineno))
+            elif isinstance(n, ast.Dict):
+                found += [(k.value, v, n.lineno) for k, v in zip(n.keys, n.values)
+                          if isinstance(k, ast.Constant) and k.value in INPLACE_FLAGS]
+            for flag, value, line in found:
+                sites += 1
+                if not (isinstance(value, ast.Constant) and value.value is False):
+                    failures.append({"site": f"{rel}:{line}",
+                                     "what": f"in-place flag `{flag}={ast.unparse(value)[:30]}` is handed to a callable: it lets a "
+                                             "task overwrite a block it only borrowed from its inputs"})
     return {"sites": sites, "failures": failures, "undecided": [], "functions": len(funcs), "per_function": per_fn,
             "declared_frames": {f"{k[0]}::{k[1]}": v for k, v in {**DECLARED_FRAMES, **DECLARED_OWNED}.items()},
             "declared_fresh_callables": {f"{k[0]}::{k[1]}": sorted(v) for k, v in DECLARED_FRESH_CALLABLES.items()}}
